@@ -144,6 +144,16 @@ def solver_requests(ctx):
         y0 = rng.vec(prob.m, 1.0); S0 = [rng.choice([0.5, 1.0, 4.0, 10.0]) for _ in range(prob.m)]
         reqs.append((scenario, crit, budget, sl.Request(prob, x0, y0, S0, solver, direction, "inner", params,
                                                        always=rng.random() < 0.7, tol=tol, **kw)))
+    # FISTA in fixed-step mode (L_min == L_max) with general constraints and every criterion: psi(x_hat) / y_hat are evaluated on a different path there
+    for i in range(ctx.n(30, 200)):
+        prob, kind = sl.gen_problem(rng, "qp", n=rng.choice([1, 2, 3]), m=rng.choice([1, 2, 3]))
+        crit = rng.choice(CR)
+        Lfix = rng.choice(["64", "256", "1000"])
+        budget = rng.choice([0, 1, 2, 5, 40])
+        params = ["solver.max_iter=%d" % budget, "xcrit=%s" % crit, "solver.L_min=%s" % Lfix, "solver.L_max=%s" % Lfix]
+        if rng.random() < 0.3: params.append("solver.disable_acceleration=true")
+        reqs.append(("fista_fixed", crit, budget, sl.Request(prob, rng.vec(prob.n, 2.0), rng.vec(prob.m, 1.0), [rng.choice([0.5, 1.0, 4.0]) for _ in range(prob.m)],
+                                                            "fista", "-", "inner", params, always=rng.random() < 0.7, tol=rng.choice([1e-3, 1e-8]))))
     # exhaustive stop injection on two fixed problems with the criteria that use grad psi(x_hat): a request landing inside the line search
     # (after the safe step, after a step-size backtrack, ...) must not leave a stale gradient behind
     frng = Rng(99)
